@@ -355,12 +355,21 @@ class Interp:
         raise Unsupported("cannot join kinds %r and %r" % (a, b))
 
     def ite(self, c, a, b):
+        # an empty literal container joined with a typed container takes that type
+        def empty(x):
+            return (isinstance(x, (list, set, dict)) and not x) or type(x).__name__ == "EmptyLit"
+        if empty(a) and isinstance(b, SV) and b.kind.tag in MUTABLE_TAGS:
+            a = SV(b.kind, default_tree(b.kind))
+        if empty(b) and isinstance(a, SV) and a.kind.tag in MUTABLE_TAGS:
+            b = SV(a.kind, default_tree(a.kind))
         a = self.lit(a) if not isinstance(a, SV) else a
         b = self.lit(b) if not isinstance(b, SV) else b
         if z3.is_true(c):
             return a
         if z3.is_false(c):
             return b
+        if a.kind == b.kind:
+            return SV(a.kind, tite(c, a.tree, b.tree))
         k = self.join_kinds(a.kind, b.kind)
         a2, b2 = self.coerce(a, k), self.coerce(b, k)
         return SV(k, tite(c, a2.tree, b2.tree))
@@ -1251,6 +1260,9 @@ class Interp:
             return self.py_eq(a, b)
         if isinstance(a, str) and isinstance(b, str):
             return z3.BoolVal(a == b)       # enum members are represented by their (interned) values
+        if (isinstance(a, str) or (isinstance(a, SV) and a.kind.tag == "str")) and \
+                (isinstance(b, str) or (isinstance(b, SV) and b.kind.tag == "str")):
+            return self.py_eq(a, b)
         if is_container(a) or is_container(b):
             return z3.BoolVal(False)     # containers are values here; identity of two container arguments is not tracked
         if isinstance(a, SV) and isinstance(b, SV) and a.kind.tag == "opt" and b.kind.tag == "obj":
